@@ -151,6 +151,9 @@ class ObjRun:
             from cuqi.problem import BayesianProblem
             self._last_bp = BayesianProblem(obj.likelihood, obj.prior)
             return self._last_bp.posterior
+        if step.get("special") == "problem_lik":
+            from cuqi.problem import BayesianProblem
+            return BayesianProblem(obj.likelihood, obj.prior).likelihood
         V = self.vals_alt if step.get("alt") else self.vals
         if step["how"] == "pos":
             return obj(*[V[n] for n in step["names"]])
@@ -601,6 +604,8 @@ class ObjRun:
                 bp = self._last_bp
                 if self.add(new, "derived", o.path + [step], o.fixed, o.root) is None:
                     return
+                # the problem's own likelihood is watched too (an estimator may switch options on it)
+                self.add(bp.likelihood, "derived", o.path + [{"names": [], "how": "kw", "special": "problem_lik"}], o.fixed, o.root)
                 act = op.get("act", "sample_prior")
                 _try(lambda: bp.MAP() if act == "MAP" else (bp.ML() if act == "ML" else getattr(bp, act)(6)))
             self.ctx.hit("problem_interface_" + act)
@@ -1051,7 +1056,8 @@ def gen_case(r, tier):
             ops.append({"op": "recondition_many", "on": on, "times": r.choice([200, 500, 2000]), "pick": r.randrange(1000)})
         elif x < 0.82:
             ops.append({"op": "sampler", "on": on, "sampler": r.choice(["MH", "LinearRTO", "legacyMH", "HybridGibbs", "Gibbs", "problem", "problem"]),
-                        "pick": r.randrange(100), "act": r.choice(["sample_prior", "sample_prior", "sample_posterior", "MAP", "ML"])})
+                        "pick": r.randrange(100), "act": r.choice(["ML", "ML", "MAP", "sample_posterior"] if g in ("kl_nonlin", "heat_pde", "mapped_x")
+                                        else ["sample_prior", "sample_prior", "sample_posterior", "MAP", "ML"])})
         elif x < 0.90:
             ops.append({"op": "special", "on": on, "what": r.choice(["to_likelihood", "stacked"])})
         elif x < 0.915:
